@@ -148,6 +148,11 @@ def bool_arith_cases():
                 cases.append(dict(kind="d2", key="bool-arith/%s/%s" % (f, op), tree=["bin", op, l, r], vals=0))
         cases.append(dict(kind="d2", key="bool-arith/%s/scaled" % f, tree=["bin", "*", c_true, ["num", 3.0]], vals=1))
         cases.append(dict(kind="d2", key="bool-arith/%s/sum3" % f, tree=["bin", "+", ["bin", "+", c_true, c_mixed], c_true], vals=1))
+    # a comparison (true counts as 1) as the ARGUMENT of a function: exp(a > b) is e, in full precision
+    for f in ("exp", "sin", "cos", "tan", "arctan", "sqrt", "abs"):
+        for cmp_ in (["cmp", ">", A, ["num", -50.0]], ["cmp", "<", A, ["num", -50.0]], ["and", ["cmp", ">", A, ["num", -50.0]], ["cmp", ">", Bc, ["num", -50.0]]]):
+            cases.append(dict(kind="d2", key="function-of-comparison/%s" % f, tree=["fn", f, cmp_], vals=0))
+            cases.append(dict(kind="d2", key="function-of-comparison/%s/scaled" % f, tree=["bin", "*", ["fn", f, cmp_], ["num", 100000.0]], vals=1))
     # comparisons of plain elements whose VALUES are numpy scalars (converters defined by exp / sin), used as numbers
     W1, W2 = ["ref", "w1"], ["ref", "w2"]
     for vs in (0, 1):
